@@ -486,7 +486,7 @@ fn ws(r: &mut R) -> String {
         0 => "".into(),
         1 => " ".into(),
         2 => "\n  ".into(),
-        3 => " /* c */ ".into(),
+        3 => (*r.pick(&[&" /* c */ ", &"/* x **/", &"/***/", &"/** d */"])).into(),
         4 => "\t".into(),
         5 => "/**/".into(),
         _ => " ".into(),
